@@ -158,3 +158,17 @@ Definition stmt_cones_colcounts : Prop :=
   forall (shapes : list shape) (cp : list nat) (c row pcol : nat),
     cones_colcounts cp shapes row pcol Triu = add_counts cp (eCones c row pcol shapes).
 
+
+(** ** assemble_refines_spec, Triu: the model of [assemble_kkt_matrix] run on the raw encodings of
+    P and A returns exactly the intended matrix and the intended maps P, A, Hsblocks and sparse
+    expansion maps.  Hypothesis besides [wf_input]: every column of the Spec's Triu entry list is
+    in non-decreasing row order ([buckets_sorted]; evaluated as a boolean on every generated
+    layout).  The diag_full / diagP extraction is not part of this statement. *)
+Definition stmt_assemble_refines_spec_triu_partial : Prop :=
+  forall T (O : Ops T) (P A : @csc T) (shapes : list shape), wf_input P A shapes ->
+    buckets_sorted (kdim P A shapes) (entries_triu P A shapes) ->
+    let '(K, mp) := assemble O (encode P) (encode A) shapes Triu in
+    let sp := kkt_maps P A shapes Triu in
+    K = encode (kkt_matrix O P A shapes Triu)
+    /\ mP mp = mP sp /\ mA mp = mA sp /\ mHs mp = mHs sp /\ mSp mp = mSp sp.
+
